@@ -202,6 +202,27 @@ def interplay_families(holes, which="ABCD"):
             return inner2(node)
         out.append(("the same one-definition function applied to two leaf arguments", applied_twice, 13))
 
+    def type_function_with_group(node):
+        # (t : type) => (x : t) => (y : ((a : type) => (r : type = int; a)) t = x; y)
+        # a type-level function whose body is a group is applied to a BOUND variable inside an
+        # annotation: beta reduction substitutes an open term into a group body (S-C05-03, S-C04-03)
+        path = []
+        n = node
+        while n.parent is not None:
+            path.append(n.slot)
+            n = n.parent
+        path = tuple(reversed(path))
+        table = {
+            (): ["Lambda"], (0,): ["Type"], (1,): ["Lambda"], (1, 0): ["Variable"], (1, 1): ["Let1"],
+            (1, 1, 0): ["Application"], (1, 1, 1): ["Variable"], (1, 1, 2): ["Variable"],
+            (1, 1, 0, 0): ["Lambda"], (1, 1, 0, 1): ["Variable", "Integer"],
+            (1, 1, 0, 0, 0): ["Type"], (1, 1, 0, 0, 1): ["Let1", "Variable"],
+            (1, 1, 0, 0, 1, 0): ["Type"], (1, 1, 0, 0, 1, 1): ["Integer", "Variable"], (1, 1, 0, 0, 1, 2): ["Variable"],
+        }
+        return table.get(path, ["Variable"])
+    if "J" in which:
+        out.append(("a type-level function whose body is a group, applied to a bound variable inside an annotation", type_function_with_group, 17))
+
     def group_in_annotation(node):
         # c : (a = int; b = bool; a) = true; c
         d, s = node.depth, node.slot
